@@ -29,19 +29,23 @@ VALUES = {
 }
 
 
-def render(rec):
-    """-> (program text, list of leaf sites)"""
+def render(rec, mask=None):
+    """-> (program text, list of leaf sites); mask[i]: the leaves of element i are forms that need statements"""
     ctx, elems = rec["ctx"], rec["elems"]
     plain, star, dstar, kwn, kwv = VALUES.get(ctx, DEFAULT)
     sites = []
+    cur = [False]
 
     def leaf(v):
         sites.append(len(sites) + 1)
         if ctx == "setv-target":
             return f"t{sites[-1]}"       # an assignment target: a uniquely named variable
+        if cur[0]:
+            return f"(do (setv hyv-t{sites[-1]} (e {sites[-1]} {v})) hyv-t{sites[-1]})"
         return f"(e {sites[-1]} {v})"
     parts = []
-    for k in elems:
+    for i, k in enumerate(elems):
+        cur[0] = bool(mask and mask[i])
         if k == "plain":
             if ctx == "dict":
                 # keys have to be hashable and distinct: use the site number
@@ -132,10 +136,16 @@ def main(run):
     run.log(f"TLC: {len(rows)} programs")
     rows.sort(key=lambda x: json.dumps(x, sort_keys=True))
     stats = {"kept": 0, "error": 0, "either": 0, "clean_runs": 0}
+    jobs = []
     for rec in rows:
-        text, sites = render(rec)
+        masks = sorted(rec["masks"]) if rec["ctx"] != "setv-target" else [[False] * len(rec["elems"])]
+        for m in masks:
+            jobs.append((rec, m))
+    stats["statement_leaf_programs"] = sum(1 for _r, m in jobs if any(m))
+    for rec, mask in jobs:
+        text, sites = render(rec, mask)
         got = run_program(text)
-        key = json.dumps([rec["ctx"], rec["elems"]])
+        key = json.dumps([rec["ctx"], rec["elems"]] + ([mask] if any(mask) else []))
         run.case(key)
         stats[rec["expect"]] += 1
         form = text[len(PRELUDE):].strip()
@@ -167,12 +177,13 @@ def main(run):
             run.violation(key, f"{form}: {bad}", {"program": text, "spec": rec, "got": got})
         else:
             run.cov["traces_validated_against_impl"] += 1
-    if stats["clean_runs"] < len(rows) // 5 or min(stats["kept"], stats["error"]) == 0:
+    if stats["clean_runs"] < len(jobs) // 5 or min(stats["kept"], stats["error"]) == 0:
         raise MachineryError(f"vacuous: {stats}")
     run.sample({"program": render(rows[len(rows) // 3])[0], "spec": rows[len(rows) // 3]})
     return run.finish("model_checking",
                       f"28 contexts (collection displays, dict, call / method / dotted call, get, cut, + / and / <=, class "
                       f"bases, decorators, except types, ten single-expression slots) x every sequence of <= {me} elements "
-                      "over plain / #* / #** / keyword-and-value; checked: compilation outcome against the construct table, "
+                      "over plain / #* / #** / keyword-and-value, the leaves written as plain expressions and again as forms that need "
+                      "statements (none, each single position, all); checked: compilation outcome against the construct table, "
                       "every leaf (a uniquely numbered effect call) present in the compiled AST, and evaluated when the "
                       "program runs to completion", extra=stats)
